@@ -246,7 +246,7 @@ def check(ctx):
         if not r.violated:
             raise Machinery("vacuity: spec deviation %s not caught by Mon_C09" % sw)
     if not ctx.quick:
-        r = model_check("C09_quick.cfg", subst={"Q_": "T_", "MaxEv = 3": "MaxEv = 4"}, timeout=3000)
+        r = model_check("C09_quick.cfg", subst={"Q_": "T_", "MaxEv = 3": "MaxEv = 5"}, timeout=3000)
         if r.violated:
             ctx.violation({"clause": "design:" + r.violated, "source": "TLC exhaustive T4"}, {"trace": r.trace})
         states += r.distinct
